@@ -1,14 +1,24 @@
 #!/bin/bash
-# usage: import_seed.sh <PROP> <name> "<needs>"  — copies /tmp/seed/<PROP>/demo/{patch.diff,run.sh} into /verif/seeded/<name>/
+# usage: [SEEDROOT=seed2] import_seed.sh <PROP> <name> "<needs>"
+# Verifies the agent's demo with and without its own demo/patch.diff applied to a clean worktree
+# (no git stash: the stash stack is shared between worktrees), then copies patch + demo to /verif/seeded/<name>/.
+export GOFLAGS=-mod=mod GOPROXY=off GOSUMDB=off GOTOOLCHAIN=local
 p=$1; name=$2; needs=$3
+w=/tmp/${SEEDROOT:-seed}/$p
 d=/verif/seeded/$name
+[ -f $w/demo/patch.diff ] || { echo "no demo/patch.diff in $w"; exit 2; }
+cp $w/demo/patch.diff /tmp/$name.patch
+( cd $w && git checkout -q -- . && bash demo/run.sh >/dev/null 2>&1 ); without=$?
+( cd $w && git apply /tmp/$name.patch && bash demo/run.sh >/dev/null 2>&1 ); with=$?
+echo "$name: demo with patch exit=$with, without exit=$without"
+if [ $with -eq 0 ] || [ $without -ne 0 ]; then echo "NOT VERIFIED"; exit 1; fi
 mkdir -p $d
-( cd /tmp/seed/$p && git diff -- . ':(exclude)demo' ) > $d/patch.diff
-cp /tmp/seed/$p/demo/run.sh $d/demo_run.sh
+cp /tmp/$name.patch $d/patch.diff
+cp $w/demo/run.sh $d/demo_run.sh
 python3 - "$d" "$p" "$name" "$needs" <<'PY'
 import json,sys
 d,p,name,needs=sys.argv[1:5]
 json.dump({"id":name,"origin":"independent sub-agent given only the property text and a scratch worktree","breaks":p,"needs_to_manifest":needs,
- "verified":"demo_run.sh exits non-zero with the patch and 0 without it (run by me in the agent's worktree); suite comparison and check results are recorded by scripts/try_mutant.sh"},open(d+'/meta.json','w'),indent=1)
+ "verified":"demo_run.sh exits non-zero with patch.diff applied to a clean worktree and 0 without it (run by scripts/import_seed.sh); suite comparison and check results are produced by scripts/try_mutant.sh"},open(d+'/meta.json','w'),indent=1)
 PY
 echo imported $name
